@@ -232,6 +232,15 @@ def evaluate(c, rec):
         blob = wire.build_packet(1, renc.pkesk_build(keypool.ref_public(tgt), 7, session)) + wire.build_packet(18, renc.seipd_build(7, session, lit))
         secret = form != 'public'
         locked = form in ('locked', 'unlocked')
+        if form == 'stub-primary':
+            # the primary is a stub; the message is addressed to the (complete) subkey and, where the primary can encrypt at all, to the primary
+            # as well (senders that encrypt to every encryption-capable component): the addressed subkey still has to be found
+            if tgt == cfg['primary']:
+                return
+            locked = 'stub'
+            if keypool.entry(cfg['primary'])['alg'] == 1:
+                blob = wire.build_packet(1, renc.pkesk_build(keypool.ref_public(cfg['primary']), 7, session)) + blob
+                labels = labels + ['addressed-also/primary']
         k = keypool.pgpy_key(build(cfg, secret, locked, with_uids=form != 'noid'))
         k._require_usage_flags = enforce
         try:
@@ -244,7 +253,7 @@ def evaluate(c, rec):
         except Exception as e:   # noqa
             res, out = 'raised', e
         rec.case(key + (tgt,), tgt != cfg['primary'], labels + ['addressed/' + ('subkey' if tgt != cfg['primary'] else 'primary'), 'outcome/' + res], dict(sample, addressed=tgt, outcome=res))
-        should_work = form in ('private', 'unlocked')
+        should_work = form in ('private', 'unlocked', 'stub-primary')
         if form == 'failed-unlock':
             return
         if should_work and (res != 'ok' or out != b'addressed to ' + tgt.encode()):
@@ -351,7 +360,7 @@ FORMS = ['public', 'private', 'locked', 'unlocked', 'noid']
 
 def sweep(cfg, rec, pick=0):
     for op in OPS:
-        for form in FORMS + (['failed-unlock', 'sub-locked', 'stub-primary'] if cfg['subs'] and op in ('sign', 'certify') else []):
+        for form in FORMS + (['failed-unlock', 'sub-locked', 'stub-primary'] if cfg['subs'] and op in ('sign', 'certify') else []) + (['stub-primary'] if cfg['subs'] and op == 'decrypt' else []):
             for enforce in (True, False):
                 users = [None] + ([1] if len(cfg['uids']) > 1 and op in ('sign', 'certify', 'encrypt') else [])
                 for user in users:
